@@ -223,6 +223,7 @@ func (c *fnCtx) closeLoop(li *loopInfo, from *ssa.BasicBlock) {
 		c.addLoopObl(cls, cd, li, guard, f, fmt.Sprintf("back%d", from.Index))
 	}
 	li.backInfo = append(li.backInfo, backEdge{from: from, guard: guard, vals: backVals})
+	c.initBackEdge(li, from, guard)
 }
 
 func (c *fnCtx) entryValsOf(li *loopInfo) map[*ssa.Phi]*Val {
